@@ -227,6 +227,8 @@ static int cif_map_set_item(cif_map_t *map, const UChar *key, cif_value_tp *valu
 
                         /* referenced by the HASH_ADD_KEYPTR macro: */
                         FAILURE_HANDLER(soft):
+                        /* the item was not added; release what it holds (a value that failed to clone holds nothing) */
+                        cif_value_clean(new_value);
                         free(key_copy);
                     }
 
